@@ -181,6 +181,40 @@ def observe(apkmod, b, kind):
     return dict(b=b, reported=reported, listed=listed), consistent, raised
 
 
+def observe_multi(apkmod, blocks, order):
+    """several signature blocks in one APK (META-INF/CERT<i>.<kind> + CERT<i>.SF), queried on one APK object in the given order
+    (after get_certificates_v1() has walked all of them): one record per block -- what is reported for a block must not depend on the others"""
+    m = dict(pkg=["com", "x"], vcode=1, vname="1", perms=[], features=[], libraries=[], acts=[], svcs=[], rcvs=[], prvs=[], minsdk=blocks[0][0]["minsdk"], target=0)
+    manifest = Axml(c31.manifest_doc(m), [("android", c31.U)], False).build()
+    bio = io.BytesIO()
+    parts, consistent = [], True
+    with zipfile.ZipFile(bio, "w", zipfile.ZIP_DEFLATED) as z:
+        z.writestr("AndroidManifest.xml", manifest)
+        z.writestr("classes.dex", b"dex\n035\0" + b"\0" * 104)
+        z.writestr("META-INF/MANIFEST.MF", b"Manifest-Version: 1.0\r\n\r\n")
+        for i, (b, kind) in enumerate(blocks):
+            p7, sf, certs, cons = realise(dict(b, minsdk=blocks[0][0]["minsdk"]), kind)
+            consistent &= cons
+            z.writestr("META-INF/CERT%d.SF" % i, sf)
+            z.writestr("META-INF/CERT%d.%s" % (i, kind), p7)
+            parts.append(("META-INF/CERT%d.%s" % (i, kind), certs))
+    a = apkmod.APK(bio.getvalue(), raw=True)
+    try:
+        a.get_certificates_v1()
+    except Exception:
+        pass
+    out = [None] * len(blocks)
+    for i in order:
+        name, certs = parts[i]
+        try:
+            der = a.get_certificate_der(name)
+        except Exception:
+            der = None
+        rep = 0 if der is None else (certs.index(der) + 1 if der in certs else 99)
+        out[i] = dict(b=dict(blocks[i][0], minsdk=blocks[0][0]["minsdk"]), reported=rep, listed=rep)
+    return out, consistent
+
+
 def to_py(v):
     if isinstance(v, dict):
         return {k: to_py(x) for k, x in v.items()}
@@ -314,6 +348,24 @@ def run(chk):
                     inconsistent += not consistent
                     recs.append(rec)
                     metas.append((b, kind, raised))
+    # several signature blocks in one archive (intact and altered ones mixed, same and different digest algorithms), both query orders
+    for _ in range(40 if quick else 600):
+        alg = rnd.choice(["sha1", "sha256"])
+        blocks = []
+        for _i in range(rnd.choice([2, 2, 3])):
+            wa = rnd.random() < 0.7
+            b = base_block(alg if rnd.random() < 0.7 else "sha256", wa, sf=rnd.choice(["sf0", "sf0", "sf@%d" % rnd.randrange(len(SF0))]))
+            if rnd.random() < 0.2:
+                b["sis"][0]["sig"]["key"] = "garbage@%d" % rnd.randrange(300)
+            blocks.append((b, rnd.choice(KINDS)))
+        order = list(range(len(blocks)))
+        if rnd.random() < 0.5:
+            order.reverse()
+        out, consistent = observe_multi(apk, blocks, order)
+        inconsistent += not consistent
+        for rec, (b, kind) in zip(out, blocks):
+            recs.append(rec)
+            metas.append((rec["b"], kind, "multi-block archive"))
     for _ in range(120 if quick else 3000):
         b = random_block(rnd)
         kind = rnd.choice(KINDS)
